@@ -376,11 +376,11 @@ def gen_v4(rng, le, asz):
             for _ in range(rng.choice([0, 1, 2, 6])):
                 eo = len(loc)
                 if rng.random() < 0.25:
-                    b = rng.randint(0, MAX - 1)
+                    b = rng.choice([0, 0, 1, MAX - 1, rng.randint(0, MAX - 1), rng.randint(0, MAX - 1)])     # 0: objects whose code starts at address 0
                     loc += I(MAX, asz) + I(b, asz)
                     ents.append(('base', eo, b, 2 * asz))
                 else:
-                    x = rng.randint(0, MAX - 2)
+                    x = rng.choice([0, rng.randint(0, MAX - 2), rng.randint(0, MAX - 2)])
                     y = rng.randint(1, MAX - 1)
                     e = bytes(rng.getrandbits(8) for _ in range(rng.choice([0, 1, 4, 300, 65535 if rng.random() < 0.03 else 2])))
                     loc += I(x, asz) + I(y, asz) + I(len(e), 2) + e
@@ -393,11 +393,11 @@ def gen_v4(rng, le, asz):
             for _ in range(rng.choice([0, 1, 2, 6])):
                 eo = len(rngs)
                 if rng.random() < 0.25:
-                    b = rng.randint(0, MAX - 1)
+                    b = rng.choice([0, 0, 1, MAX - 1, rng.randint(0, MAX - 1), rng.randint(0, MAX - 1)])     # 0: objects whose code starts at address 0
                     rngs += I(MAX, asz) + I(b, asz)
                     ents.append(('base', eo, b))
                 else:
-                    x = rng.randint(0, MAX - 2)
+                    x = rng.choice([0, rng.randint(0, MAX - 2), rng.randint(0, MAX - 2)])
                     y = rng.randint(1, MAX - 1)
                     rngs += I(x, asz) + I(y, asz)
                     ents.append(('ent', eo, x, y, False, 2 * asz))
